@@ -34,7 +34,7 @@ TSV = {
     "c": "onset\tduration\tcode\n0.5\t1.0\t4\n3.0\t1.0\t5\n4.0\tn/a\t6\n",
 }
 FILES3 = [("sub-01/sub-01_task_go_events.tsv", "a"), ("sub-01/sub-01_task_stop_events.tsv", "b"),
-          ("sub-02/EEG/sub-02_task_go_events.tsv", "c")]        # a directory name with capitals
+          ("sub-02/EEG/sub-02_task_gonogo_events.tsv", "c")]    # capitals in a directory; a task whose name starts like 'go'
 
 
 def make_tree(root, files):
@@ -174,6 +174,13 @@ def remodeled(text):
     return text.replace("\tcode\n", "\tkode\n", 1)
 
 
+def task_of(rel):
+    """The task of a data file: the text after 'task_' up to the next '_' or '.' of its name."""
+    import re
+    m = re.search(r"task_([^_.]+)", os.path.basename(rel))
+    return m.group(1) if m else None
+
+
 def hist_ops(nfiles, with_remodel):
     ops = [("modify", i) for i in range(nfiles)] + [("delete", i) for i in range(nfiles)] + [("deldir",)]
     ops += [("restore", None), ("restore", "go"), ("restore", "stop")]
@@ -231,7 +238,7 @@ def run_history(rec, bm_mod, cli, root, selection, hist):
                 args = [root] + (["-t", op[1]] if op[1] else [])
                 cli["restore"].main(args)
                 for rel, content in backed.items():
-                    if op[1] is None or ("task_" + op[1]) in os.path.basename(rel):
+                    if op[1] is None or task_of(rel) == op[1]:
                         model[rel] = content
             elif op[0] == "remodel":
                 args = [root, model_path, "-x", "derivatives", "-ns"] + (["-t", op[1]] if op[1] else [])
@@ -263,7 +270,7 @@ def run_history(rec, bm_mod, cli, root, selection, hist):
                 else:
                     cli["remodel"].main(args)
                     for rel, content in backed.items():
-                        if op[1] is None or ("task_" + op[1]) in os.path.basename(rel):
+                        if op[1] is None or task_of(rel) == op[1]:
                             model[rel] = remodeled(content)
         except BaseException as e:
             rec.violation(f"C18:history:{op[0]}-raises:{type(e).__name__}", error=repr(e)[:300], **where)
